@@ -103,10 +103,13 @@ def finish(ctx: Ctx, t0, seed, extra_cov=None, print_fn=print):
     known = [k for k in load_known() if k.get("property") == ctx.pid and k.get("status") == "known"]
     known_keys = {(k["rule"], k["instance"], k.get("statement", "")) for k in known}
     findings = ctx.findings
-    new = [o for o in findings if Ctx.key(o) not in known_keys]
-    old = [o for o in findings if Ctx.key(o) in known_keys]
+    def _is_known(o):
+        # ("*" as statement: only written by selftest/make_base_known.py for trees of older commits)
+        return Ctx.key(o) in known_keys or (o["rule"], o["instance"], "*") in known_keys
+    new = [o for o in findings if not _is_known(o)]
+    old = [o for o in findings if _is_known(o)]
     for o in old:
-        k = next(k for k in known if (k["rule"], k["instance"], k.get("statement", "")) == Ctx.key(o))
+        k = next(k for k in known if (k["rule"], k["instance"]) == (o["rule"], o["instance"]) and k.get("statement", "") in (o["stmt"], "*"))
         print_fn(f"KNOWN-FINDING: property={ctx.pid} {k.get('short') or k.get('what', o['why'])} [{o['rule']} {o['instance']}]")
     os.makedirs(EVIDENCE_DIR, exist_ok=True)
     os.makedirs(REPORT_DIR, exist_ok=True)
